@@ -711,6 +711,17 @@ func reviseSeverity(err error) error {
 		return nil
 	}
 	if e, ok := err.(maybeTaskFatalErr); ok {
+		if errors.IsTemporary(e.error) {
+			// The application marked its error as temporary, so it is
+			// not fatal to the task. It must not be returned as a
+			// temporary error either: the driver's RPC layer retries
+			// calls that fail with temporary errors indefinitely. With
+			// unknown severity the task is lost, and the evaluator
+			// bounds the number of times it is resubmitted.
+			revised := *errors.Recover(e.error)
+			revised.Severity = errors.Unknown
+			return &revised
+		}
 		return e.error
 	}
 	if e, ok := err.(*errors.Error); ok && e != nil && e.Severity == errors.Fatal {
